@@ -923,6 +923,92 @@ LINEAR_MUTANTS = [
 ]
 MUTANTS += LINEAR_MUTANTS
 
+# first-order mutants that survived all 20 checks in the systematic mutation run (tools/automutate.py) before the rules
+# named here were added
+FIRST_ORDER_MUTANTS = [
+    dict(id="fo-pump-error-swallowed", props=["C05"], rule=None,
+         edits=[(MARSHAL, "            error.set_bytes_remaining(buffer_iter)\n            raise error\n", "            error.set_bytes_remaining(buffer_iter)\n")]),
+    dict(id="fo-pump-no-capture", props=["C05"], rule=None,
+         edits=[(MARSHAL, "                if event.path == command_code_path:\n                    command_code = event.value\n", "                if event.path == command_code_path:\n                    pass\n")]),
+    dict(id="fo-pump-boundary-negated", props=["C05", "C09"], rule=None,
+         edits=[(MARSHAL, '                    and event.path == Path.from_string(".")\n', '                    and event.path != Path.from_string(".")\n')]),
+    dict(id="fo-pump-no-silent-end", props=["C09"], rule=None,
+         edits=[(MARSHAL, "                    # TODO what to return here? (formerly: command_code, None)\n                    return\n", "                    # TODO what to return here? (formerly: command_code, None)\n                    pass\n")]),
+    dict(id="fo-pump-completion-falls-through", props=["C05"], rule=None,
+         edits=[(MARSHAL, "                    # all bytes were depleted\n                    return obj\n", "                    # all bytes were depleted\n                    pass\n")]),
+    dict(id="fo-walker-no-result", props=["C01"], rule="W14", names="process_array",
+         edits=[(MARSHAL, "    return element_size * count, elements\n", "    pass\n")]),
+    dict(id="fo-to-bytes-size-guard", props=["C02"], rule="B1", names="size",
+         edits=[(BASE, "        if size is None:\n            size = self._int_size\n", "        if size is not None:\n            size = self._int_size\n")]),
+    dict(id="fo-to-bytes-signed-guard", props=["C02"], rule="B1", names="signed",
+         edits=[(BASE, "        if signed is None:\n            signed = self._signed\n", "        if signed is not None:\n            signed = self._signed\n")]),
+    dict(id="fo-to-bytes-benign-ifexp", props=["C02"], benign=True,
+         edits=[(BASE, "        if size is None:\n            size = self._int_size\n", "        size = self._int_size if size is None else size\n")]),
+    dict(id="fo-hex-first-test-negated", props=["C15"], rule="F8", names="hex scanner",
+         edits=[(HEX, "            if not high_nibble.strip():\n", "            if high_nibble.strip():\n")]),
+    dict(id="fo-hex-break-on-whitespace", props=["C15"], rule="F8", names="hex scanner",
+         edits=[(HEX, "                low_nibble = bytes([next(buffer)])\n                continue\n", "                low_nibble = bytes([next(buffer)])\n                break\n")]),
+    dict(id="fo-hex-no-reset", props=["C15"], rule="F8", names="hex scanner",
+         edits=[(HEX, '        yield int(high_nibble + low_nibble, 16)\n\n        high_nibble = b""\n', '        yield int(high_nibble + low_nibble, 16)\n\n')]),
+    dict(id="fo-hex-base-17", props=["C15"], rule=None,
+         edits=[(HEX, "        yield int(high_nibble + low_nibble, 16)\n", "        yield int(high_nibble + low_nibble, 17)\n")]),
+    dict(id="fo-hex-silent-on-odd", props=["C15"], rule=None,
+         edits=[(HEX, '            raise ValueError("Invalid hex string: uneven amount of digits.")\n', "            return\n")]),
+    dict(id="fo-hex-raw-next", props=["C10"], rule="T6", names="next()",
+         edits=[(HEX, '    """Generator: hex string to bytes."""\n    buffer = iter(buffer)\n\n    high_nibble', '    """Generator: hex string to bytes."""\n\n    high_nibble')]),
+    dict(id="fo-swtpm-raw-next", props=["C10"], rule="T6", names="next()",
+         edits=[(SWTPM, '    """Generator: hex string to bytes."""\n    buffer = iter(buffer)\n\n    value', '    """Generator: hex string to bytes."""\n\n    value')]),
+    dict(id="fo-auto-magic-negated", props=["C15"], rule="F9", names="detector",
+         edits=[(AUTO, '    if look_ahead == b"\\x0a\\x0d":\n', '    if look_ahead != b"\\x0a\\x0d":\n')]),
+    dict(id="fo-auto-hex-negated", props=["C15"], rule="F9", names="detector",
+         edits=[(AUTO, '        if re.match(b"[0-9a-fA-F]{2}", look_ahead):\n', '        if not re.match(b"[0-9a-fA-F]{2}", look_ahead):\n')]),
+    dict(id="fo-auto-strict-negated", props=["C15"], rule="F9", names="detector",
+         edits=[(AUTO, "            if not strict:\n", "            if strict:\n")]),
+    dict(id="fo-auto-strict-default", props=["C15"], rule="F9", names="strict",
+         edits=[(AUTO, "command_code=None, strict=False, **kwargs", "command_code=None, strict=True, **kwargs")]),
+    dict(id="fo-auto-benign-elif", props=["C15"], benign=True,
+         edits=[(AUTO, """    else:
+        if re.match(b"[0-9a-fA-F]{2}", look_ahead):
+            # look ahead is valid hex, so it's MAYBE hex
+            if not strict:
+                yield "hex"
+            else:
+                raise IOError(
+                    f"Ambiguous input format: magic number is {binascii.hexlify(look_ahead).decode()}. Could be binary or hex."
+                )
+        else:
+            # not valid hex, so it must be binary
+            yield "binary"
+""", """    elif not re.match(b"[0-9a-fA-F]{2}", look_ahead):
+        # not valid hex, so it must be binary
+        yield "binary"
+    elif strict:
+        raise IOError(
+            f"Ambiguous input format: magic number is {binascii.hexlify(look_ahead).decode()}. Could be binary or hex."
+        )
+    else:
+        # look ahead is valid hex, so it's MAYBE hex
+        yield "hex"
+""")]),
+    dict(id="fo-pcap-stop-at-empty", props=["C15"], rule="F5", names="packet loop",
+         edits=[(PCAP, "        if not binary_blob:\n            continue\n", "        if not binary_blob:\n            break\n")]),
+    dict(id="fo-pcap-stale-packet", props=["C15"], rule="F5", names="payload source",
+         edits=[(PCAP, "                pkg = parser(pkg_bytes)\n                break\n", "                parser(pkg_bytes)\n                break\n")]),
+    dict(id="fo-pcap-unwrap-negated", props=["C15"], rule="F5", names="unwrap",
+         edits=[(PCAP, "        while not isinstance(pkg, bytes):\n", "        while isinstance(pkg, bytes):\n")]),
+    dict(id="fo-charge-default-anticipates", props=["C03"], rule="R2", names="anticipate_only",
+         edits=[(CONSTR, "    def bytes_parsed(self, path, size, anticipate_only=False):\n        # TODO always", "    def bytes_parsed(self, path, size, anticipate_only=True):\n        # TODO always")]),
+    dict(id="fo-selector-type-of-other-field", props=["C04"], rule="V6", names="tpm_type",
+         edits=[(MARSHAL, "                f.type for f in fields(tpm_type) if f.name == selector_name\n", "                f.type for f in fields(tpm_type) if f.name != selector_name\n")]),
+    dict(id="fo-suggestion-cutoff", props=["C19"], rule="L2", names="suggestion",
+         edits=[(MAIN, "n=1, cutoff=0)[0]", "n=1, cutoff=1)[0]")]),
+    dict(id="fo-suggestion-index", props=["C19"], rule="L2", names="suggestion",
+         edits=[(MAIN, "n=1, cutoff=0)[0]", "n=1, cutoff=0)[1]")]),
+    dict(id="fo-suggestion-benign-n", props=["C19"], benign=True,
+         edits=[(MAIN, "n=1, cutoff=0)[0]", "n=3, cutoff=0.0)[0]")]),
+]
+MUTANTS += FIRST_ORDER_MUTANTS
+
 # seeded regressions written by independent sub-agents (seeded/<id>/): kept as regression tests of the checkers
 import glob as _glob
 import json as _json
